@@ -7,6 +7,8 @@ HERE = os.path.dirname(os.path.dirname(os.path.abspath(__file__)))
 REPO = os.environ.get('HEPH_REPO', '/repo')
 
 ID = 'C19'
+# modules whose functions must not keep state between calls (pyvc.statecheck.hidden_state_census, syntactic)
+HIDDEN_STATE_MODULES = ['src.graph_utils']
 LEVEL = 'proof'
 SIDECARS = ['graph_utils']
 FUNCTIONS = [
@@ -115,6 +117,15 @@ def checks(gu, ref):
             if a != e:
                 yield (s,), sorted(e, key=repr), sorted(a, key=repr)
 
+    def dfs_equal_source_run(g, uni):
+        # vertices that are equal but not identical objects (as the node tuples of the type graph are): the source handed
+        # to dfs is a fresh, equal object
+        eg = {(k,): [E((t,)) for t in adj] for k, adj in g.items()}
+        for s in uni:
+            a, e = gu.dfs(eg, tuple([s])), ref.dfs(eg, (s,))
+            if a != e:
+                yield (s,), sorted(e, key=repr), sorted(a, key=repr)
+
     def none_run(real, spec):
         def run(g, uni):
             for v in uni:
@@ -143,6 +154,7 @@ def checks(gu, ref):
         'bi_reachable': pairwise(gu.bi_reachable, ref.bi_reachable),
         'connected': pairwise(gu.connected, ref.connected),
         'dfs': dfs_run,
+        'dfs[equal-source]': dfs_equal_source_run,
         'find_all_bi_reachable': per_vertex(gu.find_all_bi_reachable, ref.find_all_bi_reachable),
         'find_all_connected': per_vertex(gu.find_all_connected, ref.find_all_connected),
         'none_reachable': none_run(gu.none_reachable, ref.none_reachable),
@@ -187,7 +199,8 @@ def graph_space(ref, tier, seed, deep=False):
 
 FUNC_OF = {
     'src.graph_utils.find_longest_paths.exist': ['find_longest_paths'],
-    'src.graph_utils.dfs._dfs': ['dfs'],
+    'src.graph_utils.dfs._dfs': ['dfs', 'dfs[equal-source]'],
+    'src.graph_utils.dfs': ['dfs', 'dfs[equal-source]'],
 }
 
 
@@ -195,7 +208,9 @@ def bounded(tier, seed, only=None, stop_first=False, deep=False):
     gu, ref = _load()
     cs = checks(gu, ref)
     # the proved functions are included in the thorough tier as engine cross-check; quick: only the unproved ones
-    names = only or (list(cs) if tier == 'thorough' else ['find_all_paths', 'find_all_reachable', 'find_longest_paths'])
+    # every function is compared with the reference in both tiers: for the proved ones this is a cross-check of the engine
+    # and of what the contracts abstract from (object identity of vertices, state kept between calls)
+    names = only or list(cs)
     desc, space = graph_space(ref, tier, seed, deep)
     evals = 0
     nontrivial = set()
